@@ -338,6 +338,15 @@ def check_C10(ctx):
                 c = dict(files=files, cmd=cmd, f_today="2021/01/05", **NOCOLOR)
                 if cmd == "lint": c["arg"] = b"log.yaml"
                 cases.append(c)
+    # the unreadable part lies in days outside the requested period: still an error (the file could not be read completely)
+    for n in (65536, 70000):
+        longline = b"  " + b"x" * n + b": 1\n"
+        for end, body in [("2021/01/01", b"2021/01/01:\n  a: 1\n2021/01/05:\n  b: 2\n2021/01/06:\n  b: 3\n" + longline + b"2021/01/01:\n  c: 3\n"),
+                          ("2021/01/02", b"2021/01/01:\n  a: 1\n2021/01/09:\n  b: 1\n2021/01/10:\n" + b"#" + b"y" * n + b"\n  b: 2\n")]:
+            for cmd in ("reg", "bal", "csv-log", "print", "totals", "quantity", "unresolved"):
+                c = dict(files={"food.yaml": b"a:\n  x: 1\n", "log.yaml": body}, cmd=cmd, f_today="2021/01/05", g_end=end, **NOCOLOR)
+                if cmd in ("reg", "bal", "csv-log", "print") and r.random() < 0.5: c["l_end"] = c.pop("g_end")
+                cases.append(c)
     # a directory given as a file
     for cmd in ("reg", "bal", "csv-log", "print", "quantity", "totals", "unresolved", "summary", "stats", "lint", "csv-db", "csv-db-resolved", "element-total"):
         for which in ("log.yaml", "food.yaml"):
@@ -348,8 +357,16 @@ def check_C10(ctx):
             if cmd == "summary": c["arg"] = b"2021/01/01"
             cases.append(c)
     ires = cli_diff(ctx, cases, tag="C10:cmd:")
+    READS = {"reg": ["food.yaml", "log.yaml"], "bal": ["food.yaml", "log.yaml"], "totals": ["food.yaml", "log.yaml"], "unresolved": ["food.yaml", "log.yaml"],
+             "summary": ["food.yaml", "log.yaml"], "stats": ["log.yaml", "food.yaml"], "csv-log": ["log.yaml"], "print": ["log.yaml"], "quantity": ["log.yaml"],
+             "csv-db": ["food.yaml"], "csv-db-resolved": ["food.yaml"], "element-total": ["food.yaml"]}
     for c, i in zip(cases, ires):
         ctx.nontriv(json.dumps(short(c), default=str) + str(len(c["files"].get("log.yaml", b""))))
+        read = [c["arg"].decode()] if c["cmd"] == "lint" else READS[c["cmd"]]
+        unreadable = [p for p in read if c["files"].get(p) == "DIR" or (isinstance(c["files"].get(p), bytes) and any(len(l) >= 65536 for l in c["files"][p].split(b"\n")))]
+        if unreadable and i["status"] == "ok":
+            ctx.violation("C10:success-on-unreadable-file:" + c["cmd"], "%s reports success although %s cannot be read completely (line of 65536+ bytes, or a directory)" % (c["cmd"], unreadable),
+                          dict(kind="cli", case=c, impl=i))
     return dict(rule="S-SCAN: for %d small files every byte offset 0..len+1 at which the reader starts failing, with reads of 1, 3 and 4096 bytes, exact callback sequence and returned "
                 "error vs the model (and the returned error must be non-nil); lines of 65535 / 65536 / 70000 bytes at first, middle, last position, LF / CRLF / unterminated; the same "
                 "files and a directory given as log or book through every command on the real binary. Non-trivial = distinct file (all offsets) / distinct (command, file shape)" % nfiles,
